@@ -239,6 +239,20 @@ func (r *Report) Finish(verifDir, tier string, seed int64, start time.Time, stat
 		}
 	}
 	sort.Strings(knownMatched)
+	if knownMatched == nil {
+		knownMatched = []string{}
+	}
+	if r.Assumptions == nil {
+		r.Assumptions = []string{}
+	}
+	r.Assumptions = append(r.Assumptions, "go/types and go/ssa (x/tools v0.29.0) represent the program the Go compiler builds from the same files; dependencies are known by type only unless a rule says it reads their bodies")
+	if r.Trusted == nil {
+		r.Trusted = []string{}
+	}
+	r.Trusted = append(r.Trusted, "go/packages + go/types + go/ssa of golang.org/x/tools v0.29.0", "the engine's key-family resolution and store-effect summaries (fxcheck/keys.go, effects.go)")
+	if r.Notes == nil {
+		r.Notes = []string{}
+	}
 	// known findings discharged through the file count as "discharged by listing" for proof-level bookkeeping: no.
 	cov := map[string]any{
 		"explanation":            r.Explanation,
